@@ -91,9 +91,11 @@ void apply_chunking(const Input& in, bool from_buffer, bool shipped, std::string
 // the bytes"; its quantifier covers valid and truncated files). Not strict (C07, corrupted files): a corrupt
 // compressed file may be rejected by the decompressor or - when garbage pieces reach the parser first - by the
 // parser; the property only demands that the failure is reported.
-void compare_outcomes(const char* prop, const char* oracle, const Input& in, bool from_buffer, const Outcome& ref, const Outcome& run, bool strict_exception = true) {
+void compare_outcomes(const char* prop, const char* oracle, const Input& in, bool from_buffer, const Outcome& ref, const Outcome& run, bool strict_exception = true, const std::string& zlib_label = std::string{}) {
     const std::string kind = io_kind(in, from_buffer);
     const std::string pre = std::string{prop} + "." + oracle + "/" + kind + "/";
+    // only where the reference outcome is a gzip error does zlib's silence matter
+    const std::string zl = (ref.threw && ref.exc_type.find("gzip_error") != std::string::npos) ? zlib_label : std::string{};
     if (run.nonstd_exception) {
         sim::report("oracle", pre + "non-std-exception", "an exception not derived from std::exception reached the caller");
         return;
@@ -102,14 +104,14 @@ void compare_outcomes(const char* prop, const char* oracle, const Input& in, boo
         if (run.threw) {
             sim::report("oracle", pre + "ref-ok-run-throws-" + exc_class(run), "reference run succeeded (" + std::to_string(ref.objs.size()) + " objects) but this run threw " + run.exc_type + " from " + run.where + ": " + run.exc_what);
         } else {
-            sim::report("oracle", pre + "ref-throws-" + exc_class(ref) + "-run-ok", "reference run threw " + ref.exc_type + " (" + ref.exc_what + ") from " + ref.where + " but this run succeeded with " + std::to_string(run.objs.size()) + " objects");
+            sim::report("oracle", pre + "ref-throws-" + exc_class(ref) + "-run-ok" + zl, "reference run threw " + ref.exc_type + " (" + ref.exc_what + ") from " + ref.where + " but this run succeeded with " + std::to_string(run.objs.size()) + " objects");
         }
         return;
     }
     if (ref.threw) {
         if (!strict_exception) { return; }
         if (ref.exc_type != run.exc_type || ref.exc_what != run.exc_what) {
-            sim::report("oracle", pre + "exception-differs-" + exc_class(ref) + "-vs-" + exc_class(run), "reference: " + ref.exc_type + " '" + ref.exc_what + "' run: " + run.exc_type + " '" + run.exc_what + "'");
+            sim::report("oracle", pre + "exception-differs-" + exc_class(ref) + "-vs-" + exc_class(run) + zl, "reference: " + ref.exc_type + " '" + ref.exc_what + "' run: " + run.exc_type + " '" + run.exc_what + "'");
             return;
         }
         if (!prefix_consistent(ref.objs, run.objs)) {
@@ -157,14 +159,84 @@ void run_c06() {
     sim::begin_run(cfg);
     apply_chunking(in, from_buffer, shipped, desc);
     const Outcome run = read_all(in, ro);
+    const std::string zl = (ref.threw && ref.exc_type.find("gzip_error") != std::string::npos) ? zlib_label_for(in, from_buffer) : std::string{};
+    simfs::force_close_all();
     sim::end_run();
     sim::set_decomp_clamp(0);
     sim::clear_values();
     simfs::set_soft(simfs::Soft{});
     sim::set_sample(sample_json(in, extra + ",\"from_buffer\":" + (from_buffer ? "true" : "false") + ",\"chunking\":\"" + desc + "\",\"reference\":\"" + (ref.threw ? "throws " + exc_class(ref) : std::to_string(ref.objs.size()) + " objects") + "\""));
-    compare_outcomes("C06", "chunking", in, from_buffer, ref, run);
+    compare_outcomes("C06", "chunking", in, from_buffer, ref, run, true, zl);
     if (ref.threw) { sim::probe("reference outcome is an exception"); }
     if (ref.objs.size() > 0 && !ref.threw) { sim::probe("reference outcome is data"); }
+}
+
+
+// C06, exhaustive part: for one small input every single cut position of the stored bytes (the first read returns
+// [0,c), the next the rest), every pair (c, c+1..c+3) near each c, and every fixed piece size 1..48 for the stream
+// handed to the parser; each point is compared with the one-piece reference outcome.
+void run_c06_enum() {
+    simfs::reset();
+    sim::clear_values();
+    Input in = pick_input(3, -1, 2);
+    if (in.bytes.size() > 900 || in.buffer_only) {
+        std::vector<const Input*> small;
+        for (const auto& f : g_fixtures) {
+            if (f.bytes.size() <= 900) { small.push_back(&f); }
+        }
+        if (!small.empty()) { in = *small[choose(S_WORK, static_cast<uint32_t>(small.size()))]; }
+    }
+    // truncated variants are inputs too
+    std::string extra;
+    if (choose(S_WORK, 3) == 0 && in.bytes.size() > 1) {
+        in.bytes.resize(choose(S_WORK, static_cast<uint32_t>(in.bytes.size())));
+        extra = ",\"truncated_to\":" + std::to_string(in.bytes.size());
+    }
+    put_input(in);
+    default_values(false);
+    const Outcome ref = reference_read(in, false);
+    ReaderOpts ro;
+    ro.pool_threads = 1 + static_cast<int>(choose(S_CONF, 2));
+    uint64_t points = 0;
+    auto one_point = [&](const simfs::Soft& soft, unsigned long piece, const std::string& what) {
+        sim::set_value("input_buffer_size", piece);
+        sim::RunConfig cfg;
+        sim::begin_run(cfg);
+        simfs::set_soft(soft);
+        const Outcome run = read_all(in, ro);
+        const std::string zl = (ref.threw && ref.exc_type.find("gzip_error") != std::string::npos) ? zlib_label_for(in, false) : std::string{};
+        simfs::force_close_all();
+        sim::end_run();
+        simfs::set_soft(simfs::Soft{});
+        ++points;
+        if (!sim::replaying() || true) {
+            const size_t before = 0;
+            (void)before;
+        }
+        compare_outcomes("C06", "chunking", in, false, ref, run, true, zl);
+        (void)what;
+    };
+    const size_t n = in.bytes.size();
+    for (size_t c = 1; c < n; ++c) {
+        simfs::Soft soft;
+        soft.cuts = {c};
+        one_point(soft, 65536, "cut at " + std::to_string(c));
+        for (size_t d = 1; d <= 3 && c + d < n; ++d) {
+            simfs::Soft s2;
+            s2.cuts = {c, c + d};
+            one_point(s2, 65536, "cuts at " + std::to_string(c) + "," + std::to_string(c + d));
+        }
+    }
+    for (unsigned long piece = 1; piece <= 48; ++piece) {
+        // the request size bounds both the fd reads and (for gz/bz2) the decompressed pieces handed to the parser
+        simfs::Soft soft;
+        one_point(soft, piece, "pieces of " + std::to_string(piece));
+    }
+    sim::clear_values();
+    sim::probe("enumerated cut points", points);
+    sim::set_sample(sample_json(in, extra + ",\"cut_points\":" + std::to_string(points) + ",\"reference\":\"" + (ref.threw ? "throws " + exc_class(ref) : std::to_string(ref.objs.size()) + " objects") + "\""));
+    sim::set_field("exhaustive_subspace", "\"mode c06enum: for each small input (<= 900 bytes, fd) every single cut position, every pair (c, c+1..c+3) and every fixed piece size 1..48\"");
+    sim::set_nontrivial(true);
 }
 
 // ------------------------------------------------------------------------------------------------
@@ -286,6 +358,99 @@ void run_c05() {
     if (ro.pool_threads >= 2 && is_pbf(in.suffix)) { sim::probe("PBF decoded with >= 2 pool threads"); }
 }
 
+
+// C05 under load: the consumer is a Writer that shares the Reader's thread pool (the usual "convert" program), with
+// small queue bounds on both sides, so that pool workers decode and encode at the same time and the Reader's queues
+// fill because the consumer blocks. What the consumer saw must equal the reference decode.
+void run_c05_convert() {
+    simfs::reset();
+    Input in = pick_input(400, static_cast<int>(choose(S_WORK, 2)), 12, false);
+    const bool from_buffer = choose(S_WORK, 4) == 0 || in.buffer_only;
+    put_input(in);
+    sim::clear_values();
+    const Outcome ref = reference_read(in, from_buffer);
+    if (ref.threw) {
+        sim::probe("reference run rejected the input");
+        sim::set_sample(sample_json(in, ",\"note\":\"reference rejected\""));
+        return;
+    }
+    config_queues();
+    config_buffers();
+    static const char* qs[] = {"2", "3", "20"};
+    sim::set_env("OSMIUM_MAX_OUTPUT_QUEUE_SIZE", qs[choose(S_CONF, 3)]);
+    const int pool_threads = pick_pool_threads();
+    static const char* outs[] = {"opl", "osm", "pbf", "opl.gz", "osm.bz2"};
+    const std::string out_suffix = outs[choose(S_CONF, 5)];
+    Outcome run;
+    bool writer_threw = false;
+    std::string writer_what;
+    sim::RunConfig cfg;
+    sim::begin_run(cfg);
+    {
+        osmium::thread::Pool pool{pool_threads, 0};
+        const int base_threads = sim::live_threads();
+        {
+            try {
+                std::unique_ptr<osmium::io::Reader> reader;
+                if (from_buffer) {
+                    reader = std::make_unique<osmium::io::Reader>(osmium::io::File{in.bytes.data(), in.bytes.size(), in.suffix}, pool);
+                } else {
+                    reader = std::make_unique<osmium::io::Reader>(osmium::io::File{INPUT_PATH_PREFIX + in.suffix}, pool);
+                }
+                osmium::io::Writer writer{osmium::io::File{"/sim/convert." + out_suffix}, reader->header(), pool, osmium::io::overwrite::allow};
+                guarded(run, "read", [&] {
+                    while (osmium::memory::Buffer buffer = reader->read()) {
+                        run.buffer_masks.push_back(model::digest_recs(buffer, run.objs));
+                        try {
+                            writer(std::move(buffer));
+                        } catch (const std::exception& e) {
+                            writer_threw = true;
+                            writer_what = e.what();
+                            break;
+                        }
+                    }
+                });
+                try {
+                    writer.close();
+                } catch (const std::exception& e) {
+                    writer_threw = true;
+                    writer_what = e.what();
+                }
+                guarded(run, "close", [&] { reader->close(); });
+            } catch (const std::exception& e) {
+                run.threw = true;
+                run.where = "ctor";
+                run.exc_what = e.what();
+            }
+        }
+        run.threads_left = sim::live_threads() - base_threads;
+    }
+    run.fds_left = simfs::open_fd_count();
+    if (run.fds_left) {
+        run.fd_desc = simfs::describe_open_fds();
+        simfs::force_close_all();
+    }
+    sim::end_run();
+    sim::clear_env();
+    sim::clear_values();
+    sim::set_sample(sample_json(in, ",\"from_buffer\":" + std::string{from_buffer ? "true" : "false"} + ",\"pool\":" + std::to_string(pool_threads) + ",\"output\":\"" + out_suffix + "\",\"objects\":" + std::to_string(run.objs.size())));
+    const std::string kind = io_kind(in, from_buffer);
+    check_leaks("C05", run, kind + "/convert");
+    if (writer_threw) {
+        // e.g. PBF output rejects what the input format allowed: not a Reader matter
+        sim::probe("the consuming Writer rejected the data");
+        return;
+    }
+    if (run.threw) {
+        sim::report("oracle", "C05.result/" + kind + "/convert/run-throws-" + exc_class(run), "reference succeeded but the Reader threw while feeding a Writer on the same pool: " + run.exc_what);
+        return;
+    }
+    if (ref.objs.size() != run.objs.size() || !prefix_consistent(ref.objs, run.objs)) {
+        sim::report("oracle", "C05.sequence/" + kind + "/convert", "Reader feeding a Writer on the same pool: " + first_diff(ref.objs, run.objs));
+    }
+    sim::probe("Reader and Writer shared one pool");
+}
+
 } // namespace
 
 // further modes (C07, C03) live in reader_faults.inc to keep this file readable
@@ -295,8 +460,11 @@ int main(int argc, char** argv) {
     load_fixtures();
     return sim::worker_main(argc, argv, [](const sim::RunInfo& info) {
         if (info.mode == "c06") { run_c06(); }
+        else if (info.mode == "c06enum") { run_c06_enum(); }
         else if (info.mode == "c05") { run_c05(); }
+        else if (info.mode == "c05convert") { run_c05_convert(); }
         else if (info.mode == "c07") { run_c07(); }
+        else if (info.mode == "c07enum") { run_c07_enum(); }
         else if (info.mode == "c03") { run_c03(); }
         else { sim::report("harness-error", "harness/unknown-mode", info.mode); }
     });
